@@ -242,6 +242,37 @@ impl Shapes for Sh {
     }
 }
 
+/// Null-pointer-optimisable options are forwarded as they are (no COption wrapping): references were
+/// covered above; here NonZero integers, bare function pointers and boxes.
+#[cglue_trait]
+pub trait Npo {
+    fn a_nz(&self, o: Option<core::num::NonZeroU32>) -> u64;
+    fn r_nz(&self) -> Option<core::num::NonZeroU32>;
+    fn a_fnp(&self, f: Option<extern "C" fn(u32) -> u32>, x: u32) -> u64;
+    fn a_box(&self, b: Option<Box<u64>>) -> u64;
+    fn r_box(&self) -> Option<Box<u64>>;
+}
+extern "C" fn twice(x: u32) -> u32 {
+    x.wrapping_add(x)
+}
+impl Npo for Sh {
+    fn a_nz(&self, o: Option<core::num::NonZeroU32>) -> u64 {
+        match o { Some(v) => v.get() as u64 ^ self.k, None => !self.k }
+    }
+    fn r_nz(&self) -> Option<core::num::NonZeroU32> {
+        core::num::NonZeroU32::new(self.k as u32)
+    }
+    fn a_fnp(&self, f: Option<extern "C" fn(u32) -> u32>, x: u32) -> u64 {
+        match f { Some(f) => f(x) as u64, None => 0xFFFF_FFFF_FFFF }
+    }
+    fn a_box(&self, b: Option<Box<u64>>) -> u64 {
+        match b { Some(b) => *b ^ self.k, None => 1 }
+    }
+    fn r_box(&self) -> Option<Box<u64>> {
+        if self.k & 1 == 1 { Some(Box::new(self.k)) } else { None }
+    }
+}
+
 fn mk() -> Sh {
     let n = nd::range(0, 4);
     Sh { rec: Rec::default(), buf: nd::any(), wide: nd::any(), n, k: nd::any(), wr: nd::any() }
@@ -541,6 +572,27 @@ nd::harnesses! {
         assert!(x == k);
         assert!(obj.r_res() == if k & 4 == 4 { Ok(k) } else { Err(k as u8) });
         assert!(obj.r_int_res() == if k & 8 == 8 { Ok(!k) } else { Err(()) });
+    }
+
+    /// Null-pointer-optimised options (NonZero, fn pointer, Box) in argument and return position.
+    #[kani::unwind(7)]
+    fn c02_npo_options() {
+        let s = mk();
+        let k = s.k;
+        let obj = trait_obj!(&s as Npo);
+        let raw: u32 = nd::any();
+        let nz = core::num::NonZeroU32::new(raw);
+        nd::cover!(nz.is_none(), "None");
+        nd::cover!(nz.is_some(), "Some");
+        assert!(obj.a_nz(nz) == s.a_nz(nz));
+        assert!(obj.r_nz() == core::num::NonZeroU32::new(k as u32));
+        let x: u32 = nd::any();
+        let some: bool = nd::any();
+        assert!(obj.a_fnp(if some { Some(twice) } else { None }, x) == if some { x.wrapping_add(x) as u64 } else { 0xFFFF_FFFF_FFFF });
+        let bv: u64 = nd::any();
+        assert!(obj.a_box(if some { Some(Box::new(bv)) } else { None }) == if some { bv ^ k } else { 1 });
+        let rb = obj.r_box();
+        assert!(rb.as_deref().copied() == if k & 1 == 1 { Some(k) } else { None });
     }
 
     /// Negative twin: claims the callee sees one element fewer than was sent.
